@@ -221,3 +221,23 @@ def units_tu(types=('double',), shapes=True, model_type=False):
         s += 'void use_mt(ConstitutiveModel::Type s) { (void)Abbreviation(s); (void)ParseEnumeration<ConstitutiveModel::Type>("x"); }\n'
     s += '} }\n'
     return s
+
+
+MODELS = ['ElasticIsotropicSolid', 'CompressibleNewtonianFluid', 'IncompressibleNewtonianFluid']
+
+
+def models_tu(types=('double',)):
+    hs = ['PhQ/ConstitutiveModel.hpp'] + ['PhQ/ConstitutiveModel/%s.hpp' % m for m in MODELS]
+    s = includes(hs) + TRAITS
+    for t in types:
+        for m in MODELS:
+            s += 'template class PhQ::ConstitutiveModel::%s<%s>;\n' % (m, t)
+            s += 'template struct std::hash<PhQ::ConstitutiveModel::%s<%s>>;\n' % (m, t)
+    s += 'namespace PhQ { namespace phqv_use {\n'
+    n = 0
+    for t in types:
+        for m in MODELS:
+            s += 'void use_%d(ConstitutiveModel::%s<%s>& a, ConstitutiveModel::%s<%s>& b) { cmps(a, b); }\n' % (n, m, t, m, t)
+            n += 1
+    s += '} }\n'
+    return s
